@@ -46,6 +46,9 @@ def handleProxyCmds (l : Line) : List Verdict :=
     let locbase ← l.str? "locbase"
     let locredirect ← l.str? "locredirect"
     let setcookies ← l.nat? "setcookies"
+    let lockeys ← l.strs? "lockeys"
+    let reqkeys ← l.strs? "reqkeys"
+    let foreign := lockeys.filter fun k => k != "redirect" && !reqkeys.contains k
     let readOnly := ["GET", "PING", "HELLO", "CLIENT", "SELECT", "AUTH", "TTL", "EXISTS"]
     let bad := cmds.filter fun x => !readOnly.contains x
     let isLogin := op.startsWith "/oauth2/login"
@@ -57,6 +60,7 @@ def handleProxyCmds (l : Line) : List Verdict :=
       (if setcookies > 0 then [("C16.proxy_effect.cookie", s!"SSO proxy set a cookie during {op}")] else []) ++
       (if isLogin && locbase != "http://sso.example.com/oauth2/login" then [("C16.proxy_redirect", s!"login redirect to {locbase}")] else []) ++
       (if isLogout && locbase != "http://sso.example.com/oauth2/logout" then [("C16.proxy_redirect", s!"logout redirect to {locbase}")] else []) ++
+      (if (isLogin || isLogout) && !foreign.isEmpty then [("C16.proxy_redirect", s!"the redirect to the SSO server carries parameters {foreign} that THIS request did not have (state kept from an earlier request)")] else []) ++
       (if (isLogin || isLogout) && !redirectOk then [("C16.proxy_redirect", s!"redirect parameter {locredirect} leaves the proxy's ingress")] else [])
     pure (verdictsOf [] viol)
   r.getD [Verdict.bad "proxycmds"]
